@@ -93,12 +93,20 @@ def unit():
     m = F.method("__init__", {"files": SeqS(STR), "mode": STR})
     m.modifies("self._files", "self._mode", "self.file_handles")
     m.ensures("is_none(self.file_handles) and self._files == files")
-    m = F.method("open", {}, RefS("FilePool"), trusted=True,
-                 note="environment: builtin open() per path (dict comprehension over open() calls is outside the engine); bounded layer checks it")
+    op = U.library("open", {"file": STR, "mode": STR}, RefS("Handle"))
+    op.ensures("result != None and fresh(result) and not result.closed", "builtin-open:a-new-open-handle(or-an-exception)")
+    m = F.method("open", {}, RefS("FilePool"), locals={"f": STR})
     m.modifies("self.file_handles")
+    # the dict comprehension {f: open(f, self._mode) for f in self._files} opens a file per path: executed as the loop it abbreviates
+    lp = m.dict_comprehension(1, STR, RefS("Handle"))
+    lp.invariant("forall(t, 0, _id1, (_seqd1[t] in _dacc1) and _dacc1[_seqd1[t]] != None and not _dacc1[_seqd1[t]].closed)",
+                 "every-path-so-far-has-an-open-handle")
+    lp.invariant("forall(kk, implies(kk in _dacc1, exists(t, 0, _id1, _seqd1[t] == kk)))", "only-the-given-paths")
+    lp.invariant("forall(h, implies(old(alive(h)) and old(h.closed), h.closed)) and _seqd1 == self._files")
     m.ensures("result == self and not is_none(self.file_handles)")
     m.ensures("forall(t, 0, len(self._files), (self._files[t] in some(self.file_handles)) and some(self.file_handles)[self._files[t]] != None"
-              " and not some(self.file_handles)[self._files[t]].closed)")
+              " and not some(self.file_handles)[self._files[t]].closed)", "every-given-path-mapped-to-an-open-handle")
+    m.ensures("forall(kk, implies(kk in some(self.file_handles), exists(t, 0, len(self._files), self._files[t] == kk)))", "no-other-path")
     m = F.method("close", {}, locals={"f": RefS("Handle")})
     m.requires("not is_none(self.file_handles)")
     m.modifies("self.file_handles", "Handle.closed[*]")
@@ -133,9 +141,10 @@ def unit():
     m.ensures("len(result) == len(some(self.file_handles)) and forall(t, 0, len(result), result[t] in some(self.file_handles))")
     for f in ("__init__", "__len__", "__getitem__", "__enter__", "create", "remove", "flush", "__exit__"):
         U.verify("TmpPool", f)
-    for f in ("__init__", "close", "__enter__", "__exit__", "__len__", "__getitem__", "__iter__"):
+    for f in ("__init__", "open", "close", "__enter__", "__exit__", "__len__", "__getitem__", "__iter__"):
         U.verify("FilePool", f)
     U.assume("file system, tempfile, os.remove, multiprocessing.Manager: environment contracts (DESIGN §4); a manager list behaves as a local "
              "list and is shared with child processes (multi-process behaviour is covered by the bounded layer only)")
-    U.assume("FilePool.open (dict comprehension over builtin open()) is an assumed environment contract; bounded layer only")
+    U.assume("builtin open(path, mode): returns a new open handle or raises (environment contract); a handle that was opened when a later "
+             "open() raises stays open - FilePool.open has no cleanup for that case, outside the property's statement (all paths are opened)")
     return U
